@@ -85,6 +85,14 @@ Section Phase4.
   Hypothesis Q_dev : forall tl n, Q tl (set_dev tl n).
   Hypothesis TR_a : forall nowT tr n, TR tr (fst (fst (fst (track_tick_a cfg nowT tr n)))).
   Hypothesis TR_b : forall tr st, TR tr (track_tick_b cfg tr st).
+  (* a callback's StopIteration ends the track's stream (Model.end_stream) *)
+  Hypothesis TR_end : forall tr, (exists cb, fst (nth cb (cbs cfg) (CbNone, [])) = CbStop) -> TR tr (set_stream tr empty_stream).
+
+  Lemma Q_end_stream tl id : (exists cb, fst (nth cb (cbs cfg) (CbNone, [])) = CbStop) -> Q tl (end_stream tl id).
+  Proof.
+    intros Hs. unfold end_stream. destruct (find_track id (tracks tl)) as [t|] eqn:F; [|apply Q_refl].
+    apply (Q_upd tl id t); [exact F| |apply TR_end; exact Hs]. simpl. apply (find_track_id _ _ _ F).
+  Qed.
 
   Lemma Q_cb_ops ops : (forall o, In o ops -> forall tl, Q tl (fst (exec_op cfg tl o))) ->
     forall tl, Q tl (exec_cb_ops cfg tl ops).
@@ -120,8 +128,16 @@ Section Phase4.
     - apply (Q_trans _ _ _ E1). apply Q_finish.
     - destruct (ignore_exc cfg); simpl; [|exact E1]. apply (Q_trans _ _ _ E1). apply Q_rm.
     - destruct (nth cb (cbs cfg) (CbNone, [])) as [rk ops] eqn:En. simpl.
-      apply (Q_trans _ _ _ E1). apply (Q_trans _ (exec_cb_ops cfg (set_dev (upd_track tl tr1) n') ops)); [|apply Q_finish].
-      apply Q_cb_ops. intros o Ho tl0. apply (Q_op cb). rewrite En. exact Ho.
+      apply (Q_trans _ _ _ E1).
+      assert (Ec : Q (set_dev (upd_track tl tr1) n') (exec_cb_ops cfg (set_dev (upd_track tl tr1) n') ops)).
+      { apply Q_cb_ops. intros o Ho tl0. apply (Q_op cb). rewrite En. exact Ho. }
+      destruct rk.
+      + apply (Q_trans _ _ _ Ec). apply Q_finish.
+      + apply (Q_trans _ _ _ Ec). apply Q_finish.
+      + assert (Hs : exists cb0, fst (nth cb0 (cbs cfg) (CbNone, [])) = CbStop) by (exists cb; rewrite En; reflexivity).
+        destruct (cb_completes cfg (set_dev (upd_track tl tr1) n') ops).
+        * apply (Q_trans _ _ _ Ec). apply (Q_trans _ (end_stream (exec_cb_ops cfg (set_dev (upd_track tl tr1) n') ops) id)); [apply Q_end_stream; exact Hs|apply Q_finish].
+        * apply (Q_trans _ _ _ Ec). apply Q_finish.
     - exact E1.
   Qed.
 
@@ -136,6 +152,8 @@ End Phase4.
 
 (* callbacks that perform no timeline operation (they may still raise) *)
 Definition no_cb_ops (cfg : config) : Prop := forall cb, snd (nth cb (cbs cfg) (CbNone, [])) = [].
+(* no callback of the configuration raises StopIteration (which would end its track's stream) *)
+Definition no_cb_stop (cfg : config) : Prop := forall cb, fst (nth cb (cbs cfg) (CbNone, [])) <> CbStop.
 
 (** * Well-formed timelines: track ids are distinct and below next_id (an invariant of every history) *)
 Definition wf (tl : timeline) : Prop :=
